@@ -279,6 +279,7 @@ func init() {
 		e.RDecs(false)
 		e.RClone()
 		e.RClauseSym()
+		e.RFragOrder()
 	})
 	register("C15", Meta{
 		Explanation: "Static panic-freedom conditions: a nil file from the parser never reaches decoration and the parse error is returned with the partial tree; every child that go/ast.Walk treats as optional is nil-guarded in fragger, decorate, restore and clone; no converter type assertion can fail; every node type has a case (panicking defaults unreachable); all per-run maps are allocated before use; every explicit panic site in the in-scope packages is classified (API-misuse precondition, unreachable by type, or positional) and a new one is reported as undecided. The two 'no decoration found' panics and 'SetLines failed' depend on runtime positions: SetLines' precondition is covered by C12's line-table rule, the link() ones are not decided.",
